@@ -44,6 +44,9 @@ type privCase struct {
 	Mask     int          `json:"mask"`
 	Jobs     int          `json:"jobs"`
 	Sources  bool         `json:"sources,omitempty"`
+	// Before: the same document object is first published once in this mode (all page
+	// groups); the site under test is the one published afterwards
+	Before string `json:"before,omitempty"`
 }
 
 func living(status string) bool { return strings.HasPrefix(status, "living") }
@@ -202,6 +205,12 @@ func check(c privCase) (fl *harness.Failure, st stats) {
 		}
 	}
 	opts := pub.FromMask(c.Mask, c.Vis, c.Jobs)
+	if c.Before != "" {
+		// whatever was published from this document before must not change what leaves now
+		if r0 := pub.Publish(doc, pub.All(c.Before, 1)); r0.Panic != "" || r0.Err != nil {
+			return harness.Failf("publish-failed", "the earlier publish (%s) failed: %q %v", c.Before, r0.Panic, r0.Err), st
+		}
+	}
 	res := pub.Publish(doc, opts)
 	if res.Panic != "" || len(res.Panics) > 0 || res.Err != nil {
 		return harness.Failf("publish-failed", "publishing failed: panic=%q render panics=%v err=%v\n%s", res.Panic, res.Panics, res.Err, g.Text()), st
@@ -277,6 +286,9 @@ func check(c privCase) (fl *harness.Failure, st stats) {
 		if err != nil {
 			return harness.Failf("generator-text-rejected", "%v", err), st
 		}
+		if c.Before != "" {
+			pub.Publish(doc2, pub.All(c.Before, 1))
+		}
 		res2 := pub.Publish(doc2, opts)
 		if res2.Panic != "" || len(res2.Panics) > 0 || res2.Err != nil {
 			return harness.Failf("publish-failed", "publishing the variant failed: %q %v %v", res2.Panic, res2.Panics, res2.Err), st
@@ -334,6 +346,7 @@ func genCase(rt *rapid.T) privCase {
 	c := privCase{Vis: rapid.SampledFrom([]string{"hide", "hide", "placeholder"}).Draw(rt, "vis"),
 		Mask:    rapid.SampledFrom([]int{63, 63, 63, 63, 1, 2, 4, 8, 32, 3, 5, 9, 62, 47}).Draw(rt, "mask"),
 		Jobs:    rapid.SampledFrom([]int{1, 1, 4}).Draw(rt, "jobs"),
+		Before:  rapid.SampledFrom([]string{"", "", "", "show", "show", "placeholder", "hide"}).Draw(rt, "before"),
 		Sources: rapid.Bool().Draw(rt, "sources")}
 	n := rapid.IntRange(1, 6).Draw(rt, "people")
 	for i := 0; i < n; i++ {
@@ -371,13 +384,13 @@ func genCase(rt *rapid.T) privCase {
 
 func TestCheckPrivacy(t *testing.T) {
 	s := harness.NewSub("living-people-marked-documents",
-		"family graphs (1..6 people, 0..3 families) in which every name part of every person is a unique marker (given, surname, an alternative NAME record, a further NAME with NICK) and places/notes are markers too; status by construction and far from the 100-year boundary: dead = DEAT with date, DEAT without date, or born about 1810 without DEAT; living = born 2001+ without DEAT, no dates at all, or born 2003 with BURI but no DEAT; living people in every role (spouse, parent, child, unconnected), optionally sharing a surname or a place with a dead person; visibility hide/placeholder x page-group masks x jobs 1/4. Oracle: IsLiving() agrees with the construction; no file name and no file content (case-insensitive) contains a name marker of a living person; every non-living person has a page, is listed, and the name shows; pages stay well formed; in hide mode the published files are byte-identical when only the living people's names, dates, places and notes are changed; non-trivial = a living and a dead person connected by a family")
+		"family graphs (1..6 people, 0..3 families) in which every name part of every person is a unique marker (given, surname, an alternative NAME record, a further NAME with NICK) and places/notes are markers too; status by construction and far from the 100-year boundary: dead = DEAT with date, DEAT without date, or born about 1810 without DEAT; living = born 2001+ without DEAT, no dates at all, or born 2003 with BURI but no DEAT; living people in every role (spouse, parent, child, unconnected), optionally sharing a surname or a place with a dead person; visibility hide/placeholder x page-group masks x jobs 1/4; in four of seven cases the same document object was published once before (show, placeholder or hide, all page groups) and the site under test is the later one. Oracle: IsLiving() agrees with the construction; no file name and no file content (case-insensitive) contains a name marker of a living person; every non-living person has a page, is listed, and the name shows; pages stay well formed; in hide mode the published files are byte-identical when only the living people's names, dates, places and notes are changed; non-trivial = a living and a dead person connected by a family")
 	s.Rapid(t, harness.Share(harness.Pick(30000, 600000)), 170, func(rt *rapid.T) {
 		c := genCase(rt)
 		s.Crumb(c)
 		fl, st := check(c)
 		nt := st.living >= 1 && st.dead >= 1 && st.connected
-		cls := []string{"vis:" + c.Vis, fmt.Sprintf("mask:%d", c.Mask)}
+		cls := []string{"vis:" + c.Vis, fmt.Sprintf("mask:%d", c.Mask), "published-before:" + c.Before}
 		seen := map[string]bool{}
 		for _, p := range c.People {
 			if !seen[p.Status] {
